@@ -671,6 +671,8 @@ func runC14(c *Ctx) {
 			p.Spec.SecurityContext.Sysctls = append(p.Spec.SecurityContext.Sysctls, corev1.Sysctl{Name: "kernel.msgmax", Value: "1"}, corev1.Sysctl{Name: "net.core.somaxconn", Value: "1"}, corev1.Sysctl{Name: "kernel.sem", Value: "1"})
 			p.Spec.SecurityContext.SeccompProfile = &corev1.SeccompProfile{Type: "Unconfined2"}
 		}
+		// every slice of the pod gets spare capacity (as slices of objects that share a backing array have)
+		padSlices(reflect.ValueOf(p).Elem())
 		cp := p.DeepCopy()
 		m := pick(r, minors)
 		lvl := pick(r, []string{"baseline", "restricted"})
@@ -746,6 +748,10 @@ func runC14(c *Ctx) {
 		}
 		if !reflect.DeepEqual(p, cp) {
 			c.Violate(Finding{Desc: "evaluation modified the pod", Key: "mutated", Input: J{"level": lvl, "minor": m, "pod": cp}, Go: p})
+		}
+		if touched := spareTouched(reflect.ValueOf(p).Elem(), "pod"); len(touched) > 0 {
+			c.Violate(Finding{Desc: fmt.Sprintf("evaluation wrote into the backing array of a slice of the pod, past the slice's length (memory of the caller, which other objects may share): %v", touched), Key: "mutated-spare-capacity",
+				Input: J{"level": lvl, "minor": m, "pod": cp, "note": "every slice of the pod has two zero elements of spare capacity"}, Go: touched})
 		}
 		// correspondence: the model, fed two different iteration orders of the annotation map, must give Go's bytes
 		res := []RevResult{}
@@ -893,6 +899,10 @@ func runC19(c *Ctx) {
 				}
 				for k := range on {
 					id := strings.Split(on[k].Rev, "@")[0]
+					if relaxedPod && waived[id] && !on[k].Allowed {
+						c.Violate(Finding{Desc: fmt.Sprintf("after opting in, control %s at %s is not waived for a pod that sets hostUsers=false (%s)", on[k].Rev, verName(l, m), on[k].Reason), Key: "not-waived-in-evaluation", Input: in, Go: J{"on": bits(on), "off": bits(off[l])}})
+						break
+					}
 					if on[k].Rev != off[l][k].Rev || (!(relaxedPod && waived[id]) && !reflect.DeepEqual(on[k], off[l][k])) {
 						c.Violate(Finding{Desc: fmt.Sprintf("with the opt-in, control %s at %s is answered differently (hostUsers=%v), although it is not one of the three waived controls of a hostUsers=false pod", on[k].Rev, verName(l, m), p.Spec.HostUsers), Key: "on-affects-other-controls", Input: in, Go: J{"on": bits(on), "off": bits(off[l])}})
 						break
